@@ -110,6 +110,8 @@ TraceMismatch ==
   /\ phase = "run" /\ ~done /\ ~ENABLED TraceStep
   /\ Emit(<<V(Attribution, "lockstep:" \o Trace[l].e, call.id, l,
               [got |-> Got(l), node |-> Top.node.k, pc |-> Top.pc, path |-> PathStr(Top.ip)])>>
+          \* a recording TestFunc invoked at a moment (or with a value) the specification does not allow is also a C12 matter
+          \o (IF Attribution = "C02T" THEN <<V("C12", "lockstep:test-timing", call.id, l, [got |-> Got(l), node |-> Top.node.k, pc |-> Top.pc, path |-> PathStr(Top.ip)])>> ELSE <<>>)
           \o (IF call.pair = "fe" THEN <<V("C14", "lockstep:" \o Trace[l].e, call.id, l, [got |-> Got(l), node |-> Top.node.k, pc |-> Top.pc, path |-> PathStr(Top.ip)])>> ELSE <<>>)
           \o (IF call.pair \in {"c17", "c17s"} THEN <<V("C17", "lockstep:" \o Trace[l].e, call.id, l, [got |-> Got(l), node |-> Top.node.k, pc |-> Top.pc, path |-> PathStr(Top.ip)])>> ELSE <<>>))
   /\ l' = NextRet(l) /\ phase' = "ret" /\ locked' = FALSE
@@ -190,6 +192,12 @@ RetVerdicts(R, c, lineNo, tag) ==
         \* rows of the C04 decision table: default applied / destination untouched, whatever else failed
         [bad |-> ok /\ tag = "c04" /\ rd # refd,
          v |-> mk("C04", "dest", [diff |-> Differs(rd, refd, DOMAIN rd \cup DOMAIN refd)])],
+        \* path-insensitive: as many required / not_nil issues as absent required nodes (robust against key-naming findings)
+        [bad |-> ok /\ Len(OnlyReq(ri)) # Len(OnlyReq(ref)),
+         v |-> mk("C04", "required-count", [got |-> OnlyReq(ri), want |-> OnlyReq(ref)])],
+        \* family catchpt: nothing but catching nodes fails, so no issue ever exists and EVERY value-rewriting transform runs
+        [bad |-> ok /\ tag = "c05pt" /\ (R.issues # <<>> \/ \E q \in MutDP(c.schema, <<>>, refd) : q \notin DOMAIN rd \/ rd[q] # 7),
+         v |-> mk("C05", "catch-interferes-with-transforms", [issues |-> R.issues, notrun |-> {q \in MutDP(c.schema, <<>>, refd) : q \notin DOMAIN rd \/ rd[q] # 7}])],
         \* C05: catching nodes are silent, hold catch iff they failed, and change nothing else
         [bad |-> ok /\ \E k \in DOMAIN ri : ~IsPTIssue(ri[k]) /\ ri[k].path \in cp,
          v |-> mk("C05", "issue-at-catching-node", ri)],
